@@ -83,7 +83,9 @@ def render(rng, toks, fancy):
     for t in toks:
         if t[0] == "n":
             if not first: out += rng.choice([b" ", b" ", b"  ", b"\t", b"\n", b"\r\n"]) if fancy else b" "
-            out += str(t[1]).encode(); first = False
+            txt = str(t[1]).encode()
+            if fancy and rng.random() < 0.03 and t[1] >= 0: txt = b"0" * max(0, rng.choice([18, 19, 20, 21, 40]) - len(txt)) + txt     # leading zeros: the value decides, not the digit count
+            out += txt; first = False
         elif t[0] == "sym":
             out += str(t[1]).encode() + b" " + t[2] + (rng.choice([b"\n", b"\r\n", b"\r"]) if fancy else b"\n"); first = True
         elif t[0] == "w":
@@ -166,6 +168,24 @@ def evaluate(ctx, cases):
             ii = i.rsplit(" ", 1) if " " in i else ["", i]
             if mi[0] != ii[0] or mi[1][:2] != ii[1][:2]:
                 ctx.disagree("SmodelsInput:calls+status", cc, i[-800:], m[-800:])
+
+    # the configurable atom limit (ProgramReader::setMaxVar): implementation against the reference acceptor (the Lean model has the default limit)
+    sub = [c for k, c in enumerate(cases) if k % 3 == 0]
+    mvs = [[1, 2, 3, 4, 5, 9, 100, 2**31 - 2][(k * 7 + len(c["text"])) % 8] for k, c in enumerate(sub)]
+    l2 = ["sr %d %s %d" % (c["ext"], c["text"], mv) for c, mv in zip(sub, mvs)]
+    for c, mv, i in zip(sub, mvs, ctx.impl(l2, 4096)):
+        t = bytes.fromhex(c["text"]) if c["text"] != "-" else b""
+        ok, calls = smodels_ref.accept(t, bool(c["ext"]), mv)
+        cc = dict(c, maxVar=mv)
+        ctx.dist["maxVar %s" % ("well-formed" if ok else "malformed")] += 1
+        if runner.is_oom(i): continue
+        if not isinstance(i, str): ctx.fail("C07:crash", "SmodelsInput crashed / sanitizer abort", cc, {"stderr": i[2][-1500:]}); continue
+        status = i.split(" ")[-1]
+        if ok:
+            want = " ".join(calls) + " OK"
+            if status != "OK": ctx.fail("C07:rejects-well-formed", "a text that is well-formed for atom limit %d was rejected" % mv, cc, {"impl": i[-300:], "want": want[-300:]})
+            elif i != want: ctx.fail("C07:wrong-directives", "accepted, but the delivered rules/outputs/externals are not the denoted ones", cc, {"impl": i[:1200], "want": want[:1200]})
+        elif status == "OK": ctx.fail("C07:accepts-malformed", "a text with an atom above the reader's atom limit %d (or otherwise malformed) was accepted" % mv, cc, {"impl": i[:1200]})
 
 def shrink_candidates(c):
     t = bytes.fromhex(c["text"]) if c["text"] != "-" else b""
